@@ -15,7 +15,7 @@ let ids s = if s = "-" then [] else List.map n_of_hex (String.split_on_char ',' 
 
 let order = ref 2 and saw_unk = ref true and unk_prob = ref Z0 and buckets = ref []
 let unigrams = ref [] and higher : (int * gram) list ref = ref []
-let tp = ref (LoadError MissingUnigram) and tt = ref (LoadError MissingUnigram)
+let tp = ref (LoadError MissingUnigram) and tt = ref (LoadError MissingUnigram) and tr = ref (LoadError MissingUnigram)
 let arpa_tbl : (n list * (z * z)) list ref = ref []
 let bos_id = ref N0
 
@@ -48,14 +48,15 @@ let handle (line : string) : string =
       let us = List.rev !unigrams in
       let hs = List.rev !higher in
       let secs = List.init (!order - 1) (fun i -> List.map snd (List.filter (fun (n, _) -> n = i + 2) hs)) in
-      tp := load_probing !buckets !saw_unk !unk_prob us secs;
+      tp := load_probing !buckets false !saw_unk !unk_prob us secs;
+      tr := load_probing !buckets true !saw_unk !unk_prob us secs;
       tt := load_trie (nat_of_int !order) !saw_unk !unk_prob us secs;
       if not !saw_unk then arpa_tbl := ([N0], (!unk_prob, Z0)) :: !arpa_tbl;
       let inv = function Loaded t -> if tinv_check (nat_of_int !order) t !arpa_tbl then "1" else "0" | LoadError _ -> "-" in
       "loaded P=" ^ loaded_str !tp ^ " T=" ^ loaded_str !tt ^ " invP=" ^ inv !tp ^ " invT=" ^ inv !tt
   | "S" :: kd :: bos :: ws ->
-      let k = if kd = "P" then Probing else Trie in
-      (match (if kd = "P" then !tp else !tt) with
+      let k = if kd = "P" || kd = "R" then Probing else Trie in
+      (match (if kd = "P" then !tp else if kd = "R" then !tr else !tt) with
        | LoadError e -> "not-loaded"
        | Loaded t ->
            let tl = alookup t in
@@ -78,7 +79,7 @@ let handle (line : string) : string =
            String.concat " | " (go st0 hist0 ws []))
   | "C" :: kd :: toks ->
       (* derivation tree: ( [B] [^] item* )   item = hex id | tree *)
-      (match (if kd = "P" || kd = "R" then !tp else !tt) with
+      (match (if kd = "P" then !tp else if kd = "R" then !tr else !tt) with
        | LoadError _ -> "not-loaded"
        | Loaded t ->
            let tl = alookup t in
@@ -102,7 +103,7 @@ let handle (line : string) : string =
            Printf.sprintf "%s %d %d %s" (hex_of_z p) (List.length c.c_left.l_ptrs) (if c.c_left.l_full then 1 else 0) (fmt_state c.c_right))
   | "P" :: kd :: rest ->
       (* partial.hh: P <kind> before.. ; between.. ; after..   (CheckAdjustment of lm/partial_test.cc) *)
-      (match (if kd = "P" || kd = "R" then !tp else !tt) with
+      (match (if kd = "P" then !tp else if kd = "R" then !tr else !tt) with
        | LoadError _ -> "not-loaded"
        | Loaded t ->
            let tl = alookup t in
@@ -144,7 +145,7 @@ let handle (line : string) : string =
             | _ -> "?"))
   | "SUB" :: kd :: rest ->
       (* Subsume: U <kind> first.. ; second..  -> adjust full first second, merged left length/full, merged right *)
-      (match (if kd = "P" || kd = "R" then !tp else !tt) with
+      (match (if kd = "P" then !tp else if kd = "R" then !tr else !tt) with
        | LoadError _ -> "not-loaded"
        | Loaded t ->
            let tl = alookup t in
@@ -174,6 +175,12 @@ let handle (line : string) : string =
       let a = mk l1 p1 f1 and b = mk l2 p2 f2 in
       let sign z = match z with Z0 -> "0" | Zpos _ -> "+" | Zneg _ -> "-" in
       Printf.sprintf "%d %s %d" (if left_eq a b then 1 else 0) (sign (left_compare a b)) (if left_lt a b then 1 else 0)
+  | "DUMP" :: kd :: k :: [] ->
+      (match (if kd = "P" then !tp else if kd = "R" then !tr else !tt) with
+       | LoadError _ -> "not-loaded"
+       | Loaded t -> (match alookup t (ids k) with
+                      | None -> "none"
+                      | Some e -> Printf.sprintf "prob=%s bo=%s ext=%b left=%b rest=%s" (hex_of_z e.e_prob) (hex_of_z e.e_bo) e.e_ext e.e_left (hex_of_z e.e_rest)))
   | "SPEC" :: bos :: ws ->
       let n = nat_of_int !order in
       let hist0 = if bos = "1" then [!bos_id] else [] in
